@@ -223,6 +223,47 @@ def bayer_rules(run, db):
               'demosaic_deinterlace no longer stacks [r, (g1+g2)/2, b]', fd.loc())
 
 
+def cfa_passthrough_rules(run, db):
+    """Every Bayer routine hands the caller's colour-filter layout to every Bayer routine it calls."""
+    mod = db.module('prysm.bayer')
+    n = 0
+    for fi in mod.functions.values():
+        if 'cfa' not in fi.params:
+            continue
+        for c in walk_no_nested(fi.node):
+            if not (isinstance(c, ast.Call) and isinstance(c.func, ast.Name) and c.func.id in mod.functions):
+                continue
+            callee = mod.functions[c.func.id]
+            if 'cfa' not in callee.params:
+                continue
+            n += 1
+            pos = callee.params.index('cfa')
+            arg = c.args[pos] if pos < len(c.args) and not any(isinstance(a, ast.Starred) for a in c.args[:pos + 1]) else None
+            for k in c.keywords:
+                if k.arg == 'cfa':
+                    arg = k.value
+            ok = isinstance(arg, ast.Name) and arg.id == 'cfa'
+            run.check(ok, 'C16.bayer', fi.qual, 'layout passed to %s' % callee.name, '%s passes its cfa on to %s' % (fi.name, callee.name),
+                      '%s calls `%s` without its own cfa: the callee falls back to its default layout (rggb), so for bggr data the red and blue sites are exchanged' % (fi.name, ast.unparse(c)), fi.loc(c))
+    if n < 2:
+        raise AnalysisError('bayer: fewer than two layout pass-through call sites found (%d)' % n)
+
+
+def accumulate_rules(run, db):
+    """Binning by summation accumulates in NumPy's default (widened) accumulator, not in the input's dtype."""
+    f = db.func(D + 'bindown')
+    reds = [c for c in walk_no_nested(f.node) if isinstance(c, ast.Call) and isinstance(c.func, ast.Attribute) and c.func.attr in ('sum', 'mean')]
+    if len(reds) < 2:
+        raise AnalysisError('bindown: mean/sum reductions not found')
+    for c in reds:
+        dt = [k for k in c.keywords if k.arg == 'dtype']
+        narrow = [k for k in dt if any(isinstance(x, ast.Attribute) and x.attr == 'dtype' for x in ast.walk(k.value)) or
+                  any(isinstance(x, ast.Attribute) and x.attr in ('uint8', 'uint16', 'int8', 'int16', 'uint32', 'int32', 'float16', 'float32') for x in ast.walk(k.value))]
+        run.check(not narrow, 'C16.bin', f.qual, '%s accumulator' % c.func.attr, 'the %s over a bin is accumulated in the default (widened) type' % c.func.attr,
+                  '`%s` pins the accumulator to %s: summing narrow integer frames (the uint8/uint16 output of expose) wraps around, so the binned total is not the total of the bin '
+                  'and tile is no longer its adjoint' % (ast.unparse(c), ast.unparse(narrow[0].value) if narrow else ''), f.loc(c))
+
+
 def bin_rules(run, db):
     from . import ftkernels as K
     from ..domains.index import Shaped
@@ -319,7 +360,7 @@ def check(run, db, tier):
     run.rule('C16.bayer', 'site slices partition the 2x2 cell; every function maps colours to the same sites for both layouts; demosaicking copies raw samples at native sites')
     run.rule('C16.kernel', 'each Malvar kernel sums to one after its normalisation')
     run.rule('C16.bin', "bindown reduces the factor axes with mean/sum; tile scales by 1/prod(factor) ('sum') or 1 ('avg'); the two views are transposes")
-    for fn in (clamp_rules, bayer_rules, bin_rules):
+    for fn in (clamp_rules, bayer_rules, cfa_passthrough_rules, bin_rules, accumulate_rules):
         run.group(fn, run, db)
     run.require_instances('C16.bayer', 15)
     run.require_instances('C16.kernel', 4)
